@@ -2,6 +2,7 @@ import logging
 import numpy as np
 
 from ...refdom import RefQuad
+from ..discrete_field import DiscreteField
 from ..element_line import ElementLinePp
 
 
@@ -33,6 +34,24 @@ class ElementQuadP(ElementLinePp):
         self.dPx, self.dPy = np.zeros((0, 0, 1)), np.zeros((0, 0, 1))
         self.p = p
         self._X = np.array([])
+
+    def gbasis(self, mapping, X, i, tind=None):
+        """Orient the odd edge modes along the global direction of the edge."""
+        out = super().gbasis(mapping, X, i, tind)
+        if (4 <= i < 4 + 4 * self.facet_dofs
+                and ((i - 4) % self.facet_dofs) % 2 == 1):
+            # the mode is an odd function along the edge which the two
+            # neighbouring cells may traverse in opposite directions
+            a, b = [(0, 1), (1, 2), (3, 2), (0, 3)][(i - 4) // self.facet_dofs]
+            t = mapping.mesh.t
+            sign = 1. - 2. * (t[a] > t[b])
+            if tind is not None:
+                sign = sign[tind]
+            return (DiscreteField(
+                value=np.array(out[0]) * sign[:, None],
+                grad=out[0].grad * sign[:, None],
+            ),)
+        return out
 
     def lbasis(self, X, i):
         x, y = X
